@@ -620,6 +620,7 @@ func closedCallersOwned(c *core.Ctx, key string, allowedNames []string, targets 
 	for _, a := range allowedNames {
 		allowed[a] = true
 	}
+	expandAllowed(c, allowed)
 	_, sites := callersOf(c, targets...)
 	seen := map[string]bool{}
 	for _, s := range sites {
